@@ -128,21 +128,21 @@ def main(argv=None):
             import traceback
             problems.append("oracle self-test crashed: " + "".join(traceback.format_exception(e))[-1500:])
 
-    # ---- 2. E2 lemmas ------------------------------------------------------------------
+    # ---- 2. E2 lemmas (run in a thread alongside the E1 jobs; z3 releases the GIL while solving) -----------
     lemma_results = []
-    if hasattr(mod, "LEMMAS"):
+    lemma_state = {"results": [], "error": None}
+
+    def run_lemmas():
         try:
-            lemma_results = mod.LEMMAS(tier) or []
+            lemma_state["results"] = mod.LEMMAS(tier) or []
         except Exception as e:
             import traceback
-            problems.append("lemma generation crashed: " + "".join(traceback.format_exception(e))[-1500:])
-        for L in lemma_results:
-            if L["verdict"] == "violated":
-                # witness already replayed on the real code by the lemma code
-                violations.append({"kind": "lemma", "name": L["name"], "witness": L.get("witness"),
-                                   "detail": L.get("detail")})
-            elif L["verdict"] == "inconclusive":
-                print("inconclusive lemma: %s (%s)" % (L["name"], L.get("detail")))
+            lemma_state["error"] = "lemma generation crashed: " + "".join(traceback.format_exception(e))[-1500:]
+    import threading
+    lemma_thread = None
+    if hasattr(mod, "LEMMAS") and not a.only:
+        lemma_thread = threading.Thread(target=run_lemmas, daemon=True)
+        lemma_thread.start()
 
     # ---- 3. E1 jobs ---------------------------------------------------------------------
     jobs = mod.JOBS(tier) if hasattr(mod, "JOBS") else []
@@ -183,6 +183,18 @@ def main(argv=None):
     with cf.ThreadPoolExecutor(max_workers=a.jobs) as ex:
         for r in ex.map(do, jobs):
             results.append(r)
+
+    if lemma_thread is not None:
+        lemma_thread.join()
+        if lemma_state["error"]:
+            problems.append(lemma_state["error"])
+        lemma_results = lemma_state["results"]
+        for L in lemma_results:
+            if L["verdict"] == "violated":
+                # witness already replayed on the real code by the lemma code
+                violations.append({"kind": "lemma", "name": L["name"], "witness": L.get("witness"), "detail": L.get("detail")})
+            elif L["verdict"] == "inconclusive":
+                print("inconclusive lemma: %s (%s)" % (L["name"], L.get("detail")))
 
     harness_summ = {}
     functions = set()
